@@ -10,12 +10,13 @@
 //verif:subst p2p/host/observedaddrs github.com/multiformats/go-multiaddr/net.ToIP verifToIP
 //verif:replace (net.IP).String vC17ipString
 //verif:shard VerifC17aHistory 9
-//verif:obligation C17.a observation bookkeeping vs the statement on every history of 3 (thorough 4) operations from {record(conn, observed address), close+remove(conn)} over 3 connections (two of them possibly in the same observer group) and 2 observed addresses, threshold 2: AddrsFor returns an observed address iff the number of distinct observer groups among the currently open connections whose current credited observation is that address reaches the threshold, most observed first, at most 3; a repeated report from one group counts once; a report is withdrawn when the connection reports another address or closes; a report processed after its connection closed is never credited
+//verif:obligation C17.a observation bookkeeping vs the statement on every history of 3 (thorough 4) operations from {record(conn, observed address), close+remove(conn)} over 3 connections (two of them possibly in the same observer group) and 2 observed addresses, threshold 2: AddrsFor returns an observed address iff the number of distinct observer groups among the currently open connections whose current credited observation is that address reaches the threshold, most observed first, at most 3; a repeated report from one group counts once, and - the inductive fact behind withdrawal - every group is credited exactly once per open connection currently reporting the address (so a repeated identical report never inflates the credit that one close removes); a report is withdrawn when the connection reports another address or closes; a report processed after its connection closed is never credited
 //verif:obligation C17.b filters: observations that are loopback, NAT64, relayed, of a transport inconsistent with the local address, or on a connection whose local address is not a listen address are never recorded
+//verif:obligation C17.d the real hasConsistentTransport / isRelayedAddress over multiaddrs produced by the real parser (IPv4 / IPv6 x TCP / UDP): an observed thin-waist address is consistent with the local one iff both the IP family and the transport protocol agree; addresses of different shapes never are; circuit addresses are recognised as relayed
 //verif:obligation C17.c observer grouping: two IPv4 remotes are the same observer iff their addresses are equal; two IPv6 remotes iff their first 56 bits are equal
 //verif:bound 3 connections, 2 observed thin-waist addresses, 1 local listen address, history length 3 (4), ActivationThresh set to 2
 //verif:stub multiaddrs are atoms: thinWaistForm / getObserver / hasConsistentTransport / isRelayedAddress hooked, manet classification substituted by symbolic flags; net.IP.String injective stub in the symbolic run (C17.c)
-//verif:outside real multiaddr parsing, the worker channel (observations dropped when full), NAT-type inference, inferred addresses for sibling transports
+//verif:outside real multiaddr parsing in the bookkeeping histories (atoms there; C17.d runs the real parser), the worker channel (observations dropped when full), NAT-type inference, inferred addresses for sibling transports
 package observedaddrs
 
 import (
@@ -125,6 +126,24 @@ func VerifC17aHistory() {
 				}
 			}
 		}
+		// the bookkeeping behind it (inductive: this is what makes withdrawal on close exact for histories of any length):
+		// every observer group is credited once per open connection of that group currently reporting the address
+		for x := 0; x < 2; x++ {
+			var perGroup [3]int
+			for c := 0; c < 3; c++ {
+				if credited[c] == x {
+					perGroup[vC17conns[c].group]++
+				}
+			}
+			set := o.externalAddrs[string(vC17local.Bytes())][string(vC17obs[x].Bytes())]
+			for g := 0; g < 3; g++ {
+				n := 0
+				if set != nil {
+					n = set.ObservedBy[string(rune('A'+g))]
+				}
+				vAssert(n == perGroup[g], "an observer group is credited exactly once per open connection currently reporting the address")
+			}
+		}
 		got := o.AddrsFor(vC17local)
 		var has [2]bool
 		for _, g := range got {
@@ -206,4 +225,30 @@ func VerifC17cObserverGroup() {
 	} else {
 		vAssert((oa == ob) == same, "IPv4 remotes are one observer iff their addresses are equal")
 	}
+}
+
+// ---- C17.d: the real transport-consistency and relay filters over really parsed multiaddrs ----
+
+func vC17parse(s string) ma.Multiaddr {
+	m, err := ma.NewMultiaddr(s) // the real parser, also in the symbolic run (ma.StringCast yields atoms there)
+	if err != nil {
+		panic(err)
+	}
+	return m
+}
+
+func VerifC17dConsistentTransport() {
+	texts := []string{"/ip4/1.2.3.4/tcp/1", "/ip4/5.6.7.8/udp/2", "/ip6/2001:db8::1/tcp/3", "/ip6/2001:db8::2/udp/4", "/ip4/9.9.9.9/tcp/5"}
+	fam := []int{4, 4, 6, 6, 4}
+	tpt := []string{"tcp", "udp", "tcp", "udp", "tcp"}
+	i, j := vCase(5), vCase(5)
+	a, b := vC17parse(texts[i]), vC17parse(texts[j])
+	want := fam[i] == fam[j] && tpt[i] == tpt[j]
+	vAssert(hasConsistentTransport(a, b) == want, "an observation counts only if its IP family and transport are those of the local address")
+	if !want {
+		vCover("inconsistent")
+	}
+	vAssert(!hasConsistentTransport(a, nil) && !hasConsistentTransport(a, a[:1]), "addresses of different shapes are never consistent")
+	relay := vC17parse("/ip4/1.2.3.4/tcp/1/p2p-circuit")
+	vAssert(isRelayedAddress(relay) && !isRelayedAddress(a), "relayed addresses are recognised")
 }
